@@ -205,7 +205,7 @@ func RunWorker(o Opts, widx, nw int, resultPath string) {
 		arm()
 		final := SafeRun(e, min, true)
 		if final.Fail == nil || final.Fail.Oracle != out.Fail.Oracle {
-			Fatal("minimised %s scenario does not reproduce in-process (flaky harness?): %s", o.ID, scenarioJSON(min))
+			Fatal("minimised %s scenario does not reproduce in-process (flaky harness?): first failure %s: %s\nminimised: %s\noriginal: %s", o.ID, out.Fail.Oracle, out.Fail.Detail, scenarioJSON(min), scenarioJSON(failing))
 		}
 		_ = minFail
 		rf := &ReplayFile{Property: o.ID, Seed: o.Seed, Index: i, Tier: o.Tier, Oracle: final.Fail.Oracle,
